@@ -132,6 +132,8 @@ pub fn prayer_times_dt_rng_block(
     date_range: &DateRange,
     min_days_for_pll: usize,
 ) -> BTreeMap<NaiveDate, BTreeMap<Prayer, Result<PrayerTime, ()>>> {
+    #[cfg(ipt_verif)]
+    use ipt_verif_rt::{channel, thread};
     // Determine parallelism.
     let avail_pll = if let Ok(count) = thread::available_parallelism() {
         count.get()
